@@ -1,6 +1,7 @@
 mod budget;
 mod codec;
 mod commitorder;
+mod corrupt;
 mod crash;
 mod formats;
 mod freelist;
@@ -10,6 +11,7 @@ mod hnsw;
 mod joinobs;
 mod plock;
 mod relx;
+mod robust;
 mod sched;
 mod sqlrun;
 mod util;
@@ -42,6 +44,11 @@ fn main() {
         "crash-run" => crash::run(&args),
         "commit-order" => commitorder::run(&args),
         "wal-faults" => wal::fault_sweep(&args),
+        "robust-run" => robust::run(&args),
+        "robust-child" => robust::child(&args),
+        "corrupt-run" => corrupt::run(&args),
+        "corrupt-child" => corrupt::child(&args),
+        "corrupt-inventory" => corrupt::inventory(&args),
         other => {
             eprintln!("unknown subcommand {}", other);
             std::process::exit(2);
